@@ -26,6 +26,10 @@ RFILE = "ethosu/vela/range_set.py"
 def run(repo, rep):
     rep.clause("C04-a", "MemoryAccessSet.conflicts reports RAW, WAR and WAW (and only those); RangeSet keeps the sorted order its sweep relies on")
     rep.clause("C04-b", "every address-bearing field of the API operation classes enters the access set with the right direction; LUT/SHRAM ranges present")
+    rep.clause("C04-h", "the SHRAM extents that hazards are tracked on are the hardware's: which banks are reserved for the LUT decides whether a LUT DMA conflicts with a kernel's accumulators [rule shared with C15-c]")
+    from . import c15 as _c15
+
+    rep.run_borrowed(_c15, {"C15-c": "C04-h"}, repo, only_sites=("ArchitectureFeatures.__init__",))
     rep.clause("C04-c", "access sets are immutable once published (add() only inside the two constructors; conflicts() is memoised)")
     rep.clause("C04-d", "get_wait_dependency: for every queue configuration and conflict pattern, own-queue bound, scanned queue, wait kind/count and retirement match the hardware queue model")
     rep.clause("C04-e", "waits and BLOCKDEP are computed for every operation and emitted before its NPU_OP")
